@@ -216,10 +216,12 @@ func findInlineNode(file *ast.File, comment *ast.Comment, fset *token.FileSet) (
 			return false
 		}
 
+		nodeStartLine := fset.PositionFor(n.Pos(), false).Line
 		nodeEndLine := fset.PositionFor(n.End(), false).Line
 
-		// Check if this node ends on the same line as the comment
-		if nodeEndLine == commentLine {
+		// A node that begins before the comment and starts or ends on the comment's line is code on
+		// that line (a line that only opens a block, e.g. `switch {`, starts a node but ends none)
+		if nodeStartLine == commentLine || nodeEndLine == commentLine {
 			hasCodeOnLine = true
 			return false // Found code, can stop
 		}
